@@ -90,6 +90,10 @@ var c10Keys = map[string]c10Key{
 	"keyid-invalid":         {file: "privkey_unprotected.asc", pub: "pubkey", keyID: "xyz", wantFail: true},
 	"key-missing":           {file: "no-such-key.asc", pub: "pubkey", wantFail: true},
 	"second":                {file: "second_priv.asc", pub: "second_pub"},
+	"armored-leading-blank": {file: "GEN:leading-blank", pub: "pubkey"},
+	"armored-leading-text":  {file: "GEN:leading-text", pub: "pubkey"},
+	"armored-crlf":          {file: "GEN:crlf", pub: "pubkey"},
+	"armored-trailing-text": {file: "GEN:trailing-text", pub: "pubkey"},
 	"keyid-decimal":         {file: "decimal_priv.asc", pub: "decimal_pub", keyID: "4399095419976992"},
 	"decimal-no-keyid":      {file: "decimal_priv.asc", pub: "decimal_pub"},
 	"pkcs1":                 {file: "rsa_unprotected.priv", pub: "rsa_unprotected.pub", apk: true},
@@ -101,7 +105,7 @@ var c10Keys = map[string]c10Key{
 	"pem-garbage":           {file: "wrong_key_format.priv", pub: "rsa.pub", apk: true, wantFail: true},
 }
 
-var c10PGPKeys = []string{"keyid-decimal", "decimal-no-keyid", "armored", "binary", "protected", "protected-binary", "subkey-only", "keyid-primary", "keyid-subkey", "wrong-passphrase", "no-passphrase", "multiple-keys", "keyid-invalid", "key-missing"}
+var c10PGPKeys = []string{"armored-leading-blank", "armored-leading-text", "armored-crlf", "armored-trailing-text", "keyid-decimal", "decimal-no-keyid", "armored", "binary", "protected", "protected-binary", "subkey-only", "keyid-primary", "keyid-subkey", "wrong-passphrase", "no-passphrase", "multiple-keys", "keyid-invalid", "key-missing"}
 var c10APKKeys = []string{"pkcs1", "pkcs8", "pkcs8-4096", "encrypted-pem", "encrypted-pem-general", "encrypted-pem-wrong", "pem-garbage"}
 
 // c10Payloads is the number of payload shapes (0 = empty).
@@ -453,6 +457,31 @@ func checkC10(env *engine.Env, ci any) engine.Outcome {
 		sigm["key_file"] = rotPath
 	} else if c.Via == "file" {
 		sigm["key_file"] = keyPath(env, key.file)
+		if strings.HasPrefix(key.file, "GEN:") {
+			// the armored test key re-written the way key files reach a build in practice (a secret pasted from a YAML
+			// block or heredoc: leading blank line, a comment line in front, CRLF line ends, text after the block)
+			b, err := os.ReadFile(keyPath(env, "privkey_unprotected.asc"))
+			if err != nil {
+				out.HarnessError = err.Error()
+				return out
+			}
+			switch strings.TrimPrefix(key.file, "GEN:") {
+			case "leading-blank":
+				b = append([]byte("\n\n"), b...)
+			case "leading-text":
+				b = append([]byte("# signing key for the release pipeline\n\n"), b...)
+			case "crlf":
+				b = bytes.ReplaceAll(b, []byte("\n"), []byte("\r\n"))
+			case "trailing-text":
+				b = append(b, []byte("\n# end of key\n")...)
+			}
+			gp := filepath.Join(env.Scratch, "gen-key-"+strings.TrimPrefix(key.file, "GEN:")+".asc")
+			if err := os.WriteFile(gp, b, 0o600); err != nil {
+				out.HarnessError = err.Error()
+				return out
+			}
+			sigm["key_file"] = gp
+		}
 		if key.keyID != "" {
 			sigm["key_id"] = key.keyID
 		}
